@@ -572,22 +572,16 @@ func runC15(c any, x *kit.Ctx) {
 		}
 		if errors.Is(err, carv2.ErrSizeMismatch) {
 			x.Count("refused-size-mismatch", 1)
-			// counting pass counts every load, the writing pass writes a block once: legal only when a block was loaded twice
-			if defaultCfg && cs.Sel != "bytes" {
-				x.Fail("c15:size-mismatch:"+tag, "counting pass and writing pass disagree with default options: %v", err)
-				x.Fail("c15:unexpected-error:"+tag, "writer failed with default traversal options: %v", err)
-				return
-			}
+			// the counting pass and the writing pass must agree on every DAG: a block that is loaded twice (repeated
+			// link with link-visit-once off, repeated chunk behind a LargeBytesNode) is still written, and counted, once
 			if !hasRepeats(log) {
 				x.Fail("c15:size-mismatch:"+tag, "%s: ErrSizeMismatch although the writing pass loaded every block once (log %v)", what, log)
+				if defaultCfg {
+					x.Fail("c15:unexpected-error:"+tag, "writer failed with default traversal options: %v", err)
+				}
 				return
 			}
-			for _, r := range refs {
-				if r.err == nil && sameLog(r.log, log) {
-					return
-				}
-			}
-			x.Fail("c15:traversal:"+tag, "%s: the writing pass loaded %v; the reference traversal loads %v", what, log, refs[len(refs)-1].log)
+			x.Fail("c15:size-mismatch-repeated-load:"+tag, "%s: ErrSizeMismatch on a DAG whose traversal loads a block more than once (loads %v): the size announced by the counting pass differs from the bytes written", what, log)
 			return
 		}
 		if !refFails {
@@ -1297,7 +1291,7 @@ func init() {
 			"x writer {NewSelectiveWriter.WriteTo, TraverseV1, TraverseToFile (fresh / pre-existing longer file), root WriteCar, WriteCarWithWalker (walk func dropping links), SelectiveCar.Write, Prepare+Dump} " +
 			"x {link-visit-once on/off, link budget none/0/1/2, paddings, index codec/none, dag-pb prototype chooser, second root/Dag (every node incl. the same root, own selector), 0/1/2 block callbacks, one node absent from the store (SkipMe / IgnoreMissing)}; " +
 			"core matrix on all DAGs up to N nodes, added dimensions fully crossed up to N-1 nodes and as a reduced matrix on the N-node DAGs (N=5: only on the 2047 DAGs whose links all have the same multiplicity; see genC15); " +
-			"oracle: (1) independent log of the loads of the writing pass: output blocks = first-visit order of the log, each once, bytes intact; (2) the log equals that of a reference ipld-prime walk run without go-car (same selector, link-visit-once, budget), an error is legal only where the reference walk fails with the same loads, ErrSizeMismatch only when the writing pass loaded a block twice; " +
+			"oracle: (1) independent log of the loads of the writing pass: output blocks = first-visit order of the log, each once, bytes intact; (2) the log equals that of a reference ipld-prime walk run without go-car (same selector, link-visit-once, budget), an error is legal only where the reference walk fails with the same loads, ErrSizeMismatch never; " +
 			"(3) hand model from the adjacency lists for explore-all / first-field / merkledag walks: set of output blocks = reachable set; (4) announced sizes = bytes written (DataSize, Prepare().Size(), returned counts also on error), Prepare().Header()/Cids() = header/sections written, Dump = Write, every callback's offset/size/data = the section's, index codec = requested, index = sections; " +
 			"non-trivial = DAG with >= 3 nodes or a repeated link",
 		Bound: func(tier string) map[string]any {
@@ -1308,7 +1302,7 @@ func init() {
 			"hand-written dag-cbor and dag-pb encoders",
 			"the reference traversal is ipld-prime's own walker driven directly by the harness (go-ipld-prime is trusted, go-car is not)",
 			"v2 AllowDuplicatePuts (documented as ignored by the v2 root package, implemented as link-visit-once off): either traversal is accepted",
-			"ErrSizeMismatch is a refusal (asserting only the returned count and the loads) when the writing pass loaded some block more than once: link-visit-once off, or lazy loads behind a LargeBytesNode",
+			"a traversal that loads some block more than once (link-visit-once off, lazy loads behind a LargeBytesNode) writes and counts it once",
 			"identity-CID blocks may or may not appear in the index written by the v2 traversal writers",
 			"depth-limited and first-field selectors on dag-pb count data-model steps (Links/index/Hash): limits 4 and 7 are used for one and two link levels",
 		},
